@@ -20,17 +20,17 @@ impl Default for Tag { fn default() -> Tag { Tag(7) } }
 impl From<&str> for Cap { fn from(s: &str) -> Cap { Cap(s.to_string()) } }
 impl core::fmt::Display for Cap { fn fmt(&self, f: &mut core::fmt::Formatter) -> core::fmt::Result { core::fmt::Display::fmt(self.0.as_str(), f) } }
 impl AsRef<str> for Cap { fn as_ref(&self) -> &str { self.0.as_str() } }
-// allocation-free copy of the rejected input (length + first 12 bytes, via memcpy - no loop, no hashing): a `String` payload makes
+// allocation-free copy of the rejected input (length + first 8 bytes, via memcpy - no loop, no hashing): a `String` payload makes
 // Kani 0.68 report spurious dealloc checks on the empty input, and a hashing loop makes the twins several times slower
-#[derive(Debug, Clone, Copy, PartialEq, Eq)] pub struct PErr { pub len: usize, pub head: [u8; 12] }
+#[derive(Debug, Clone, Copy, PartialEq, Eq)] pub struct PErr { pub len: usize, pub head: [u8; 8] }
 // call counter for C18 ("f is not invoked for inputs that match"); a plain static: an AtomicUsize also triggers the Kani artifact
 #[allow(static_mut_refs)] static mut PERR_CALLS_RAW: usize = 0;
 pub fn perr_calls() -> usize { unsafe { PERR_CALLS_RAW } }
 pub fn perr(s: &str) -> PErr {
     unsafe { PERR_CALLS_RAW = PERR_CALLS_RAW.wrapping_add(1); }
     let b = s.as_bytes();
-    let n = if b.len() < 12 { b.len() } else { 12 };
-    let mut head = [0u8; 12];
+    let n = if b.len() < 8 { b.len() } else { 8 };
+    let mut head = [0u8; 8];
     head[..n].copy_from_slice(&b[..n]);
     PErr { len: b.len(), head }
 }
